@@ -147,7 +147,7 @@ CHECKS["C04"] = dict(
           "one evaluation = one workload (counters give the number of child runs); non-trivial = some crash landed after the first step started and before the last was acknowledged."),
     assumptions=["process kill only: the page cache survives (power loss / fsync ordering is outside the statement and cannot be injected here)",
                  "crash positions are counted globally, so background cleaner mutations are crash points too; their interleaving is not controlled, the replay re-runs the same workload and index"],
-    parts=[P("crash", "seq", "TestC04", dict(checks=8, shards=8, timeout=900, shrinktime="30s"), dict(checks=320, shards=16, timeout=3400, shrinktime="60s"))],
+    parts=[P("crash", "seq", "TestC04", dict(checks=16, shards=8, timeout=900, shrinktime="30s"), dict(checks=320, shards=16, timeout=3400, shrinktime="60s"))],
 )
 
 CHECKS["C05"] = dict(
@@ -157,7 +157,7 @@ CHECKS["C05"] = dict(
           "Oracle: reference model across reopen (committed state identical, open transactions gone, every later write supersedes earlier data immediately and after every later reopen). "
           "non-trivial = an autocommit write after a reopen that is read after a further reopen, with >= 1 other database in the process."),
     assumptions=_E1_ASSUME,
-    parts=[P("seq", "seq", "TestC05", dict(checks=64, shards=8, timeout=900), dict(checks=2000, shards=16, timeout=3000))],
+    parts=[P("seq", "seq", "TestC05", dict(checks=128, shards=8, timeout=900), dict(checks=2000, shards=16, timeout=3000))],
 )
 
 CHECKS["C10"] = dict(
@@ -171,7 +171,7 @@ CHECKS["C10"] = dict(
           "non-trivial = the injected fault actually fired (hook/reader counter)."),
     assumptions=["the server side of an aborted upload finishes asynchronously: the check waits until no instrumented step happened for 40 ms before reading (can only miss, never invent a trace)",
                  "ENOSPC is injected at the File.Write wrapper (hook), free space through the disk-usage hook; all roots of the sandbox share one real filesystem"],
-    parts=[P("faults", "seq", "TestC10", dict(checks=400, shards=8, timeout=900), dict(checks=20000, shards=16, timeout=3400))],
+    parts=[P("faults", "seq", "TestC10", dict(checks=800, shards=8, timeout=900), dict(checks=20000, shards=16, timeout=3400))],
 )
 
 CHECKS["C11"] = dict(
